@@ -149,6 +149,19 @@ func (v *VerifCanary) State(srcIP, dstIP net.IP, srcPort, dstPort uint16) *State
 		SendNext: s.SendNext, RecvNext: s.RecvNext, IPID: s.ID, SrcPort: s.SrcPort, DestPort: s.DestPort, SrcIP: s.SrcIP, DestIP: s.DestIP}
 }
 
+// Write makes the listener send data on the connection record found for the 4-tuple, through the
+// same State.write that Socket.Write (the decoders' writes) goes through. It reports whether a
+// record was found. The decoders themselves only ever write one fixed 49-byte reply; this lets a
+// check see data segments of any length and content.
+func (v *VerifCanary) Write(srcIP, dstIP net.IP, srcPort, dstPort uint16, data []byte) bool {
+	s := v.C.stateTable.Get(srcIP, dstIP, srcPort, dstPort)
+	if s == nil {
+		return false
+	}
+	s.write(data)
+	return true
+}
+
 // Close releases the descriptors.
 func (v *VerifCanary) Close() {
 	syscall.Close(v.PeerFd)
